@@ -28,6 +28,7 @@ RULE = ("cases = constructor inputs and BFS-produced objects; each compared with
 ASSUMPTIONS = ["pickling stores exactly the five strings (checked: twin state == original state)"]
 
 PREFIXES = ["", "//", "http://", "x:"]
+WARM_PARENTS = True   # BFS transitions are also taken from fully observed (warm) parents
 
 
 def twins(u):
